@@ -46,7 +46,7 @@ def parse_ann(node, tv):
     if isinstance(node, ast.Attribute): return parse_ann(ast.Name(id=node.attr), tv)
     if isinstance(node, ast.Subscript):
         base = node.value.id if isinstance(node.value, ast.Name) else node.value.attr
-        if base == 'Optional': return parse_ann(node.slice, tv)
+        if base in ('Optional', 'ClassVar', 'Final'): return parse_ann(node.slice, tv)
         if base in ('list', 'Sequence', 'Iterable', 'Iterator', 'List'): return ListT(parse_ann(node.slice, tv))
         if base == 'dict' and isinstance(node.slice, ast.Tuple) and len(node.slice.elts) == 2 and parse_ann(node.slice.elts[0], tv) == INT:
             v_ = node.slice.elts[1]
@@ -368,6 +368,19 @@ class Exec:
             EQ = s.spec.ufuns['EQ'][0]; k = Int(f'k!eq{next(_fresh)}')
             na, nb = s.llen(st.heap, a), s.llen(st.heap, b); ea, eb = s.lelem(st.heap, a), s.lelem(st.heap, b)
             return And(na == nb, ForAll([k], Implies(And(0 <= k, k < na), EQ(Select(ea, k), Select(eb, k)))))
+        if t in (ast.Eq, ast.NotEq) and not getattr(s, 'specmode', False) and a.ty.kind == 'ref' and b.ty.kind == 'ref':
+            # `==` between two objects in CODE is their __eq__, not identity: identical objects are equal, None equals only None, and for two different
+            # objects nothing is known (uninterpreted) - unless the unit gives the class's __eq__ a contract, which is then used like any other call
+            c_, m_ = s.p.method(a.ty.arg, '__eq__') if a.ty.arg in s.p.classes else (None, None)
+            q_ = f'{c_}.__eq__' if m_ is not None else None
+            if q_ is not None and q_ in s.spec.contracts:
+                saved = list(s.guard); s.guard.append(a.t != 0)
+                try: r_ = s.call(st, m_, [a, b], owner=c_)
+                finally: s.guard = saved
+                eq = If(a.t == 0, b.t == 0, s.truth(r_))
+            else:
+                eq = Or(a.t == b.t, And(a.t != 0, b.t != 0, Function('obj_eq', I, I, BoolSort())(a.t, b.t)))
+            return eq if t is ast.Eq else Not(eq)
         if t in (ast.Is, ast.Eq): return a.t == b.t
         if t in (ast.IsNot, ast.NotEq): return a.t != b.t
         if t is ast.Lt: return a.t < b.t
